@@ -8,7 +8,7 @@ use vh::*;
 
 fn main() {
     let args = Args::parse("C02");
-    let n = args.budget(400, 20000);
+    let n = args.budget(400, 60000);
     let ev = run_sharded(&args, n, |case, ev, log| {
         if case % 4 == 3 {
             spline_case::<f32>("C02", &["knots", "c2"], case, &args, ev, log)
